@@ -480,11 +480,11 @@ def find_funcdef(module, name):
     return None
 
 
-def real_case(src, line, col):
+def real_case(src, line, col, path=None):
     """everything the API shows for one cursor position; dict or {'exc': ...}"""
     import jedi
     try:
-        script = jedi.Script(src)
+        script = jedi.Script(src, path=path)
         sigs = script.get_signatures(line, col)
         if len(sigs) != 1:
             return {'nsigs': len(sigs)}
@@ -916,6 +916,197 @@ def run_oracle(ctx, c, objs):
                  case_key(c), expected=exp, observed={'bracket_start': real['bracket'], 'char': ch},
                  how='jedi.Script(source).get_signatures(line, column)[0].bracket_start')
     oracle_index(ctx, c, pysig, real)
+
+
+# ------------------------------------------------------------------ histories on one path
+
+# kinds whose call text is the same: an edit can turn one into the other without touching the call
+HIST_FAMILIES = [('f', ['function']), ('C().m', ['method', 'method_raw']),
+                 ('C.m', ['classmethod', 'staticmethod', 'unbound', 'classmethod_raw']),
+                 ('C', ['init', 'init_raw'])]
+HIST_TAIL = 'xv = 1\nxs = ()\nkws = {}\n'
+HIST_LAYOUTS = ['same-call', 'same-call', 'same-call', 'moved-call', 'edited-call', 'no-path', 'other-path']
+
+
+class _Recorder:
+    """stands in for ctx while one answer is judged by the per-request oracle: collects the failures"""
+    def __init__(self):
+        self.fails = []
+
+    def count(self, *a, **k):
+        pass
+
+    def fail(self, stream, what, case, expected=None, observed=None, kind='property', how=None):
+        self.fails.append({'stream': stream, 'what': what, 'expected': expected, 'observed': observed})
+        return True
+
+
+def gen_history(rng):
+    """an editor session on one file: successive contents whose called definition differs (parameter
+    list, kind of callable) while the call keeps its text - and, in layout same-call, its position.
+    Every step is a complete per-request case of the main stream (same generators)."""
+    callee, kinds = rng.choice(HIST_FAMILIES)
+    layout = rng.choice(HIST_LAYOUTS)
+    nver = rng.choice([2, 2, 3, 3, 4])
+    small = shapes(4)
+    vers = []
+    for _ in range(nver):
+        kind = rng.choice(kinds)
+        sig = rng.choice(sig_variants(rng.choice(small), rng, False))
+        feature = 'plain'
+        if kind.endswith('_raw'):
+            sig = raw_sig(sig, rng)
+            names = sig_names(py_bound(sig))
+        else:
+            names = sig_names(sig)
+        ret = 'int' if (not kind.startswith('init') and rng.random() < 0.25) else ''
+        def_src, callee_, fname, dsig, bound = definition(kind, sig, ret)
+        assert callee_ == callee
+        vers.append({'kind': kind, 'sig': sig, 'dsig': dsig, 'bound': bound, 'fname': fname, 'ret': ret,
+                     'def_src': def_src, 'names': names, 'feature': feature})
+    if nver >= 3 and rng.random() < 0.4:
+        vers[-1] = vers[0]          # the edit is undone
+    height = max(v['def_src'].count('\n') for v in vers)
+    pool = []
+    for v in vers:
+        pool += [n for n in v['names'] if n not in pool]
+    rng.shuffle(pool)
+
+    def one_call():
+        args = gen_args(rng, pool[:4], rng.choice([0, 1, 1, 2, 2, 3, 4]), wellformed=rng.random() < 0.85)
+        return rng.choice(cursor_cases(args, callee, rng, False))
+    call = one_call()
+    steps = []
+    for i, v in enumerate(vers):
+        pad = height - v['def_src'].count('\n')
+        if layout == 'moved-call':
+            pad += i
+        if layout == 'edited-call' and i:
+            call = one_call()
+        text, col, prev, cur, mode = call
+        pre = v['def_src'] + '\n' * pad + HIST_TAIL
+        c = {k: v[k] for k in ('kind', 'sig', 'dsig', 'bound', 'fname', 'ret', 'def_src', 'feature')}
+        c.update({'callee': callee, 'src': pre + text, 'line': pre.count('\n') + 1, 'col': col,
+                  'prev_specs': prev, 'cur': cur, 'mode': mode,
+                  'file': None if layout == 'no-path' else
+                  ('mod%d.py' % i if layout == 'other-path' else 'mod.py')})
+        steps.append(c)
+    return {'layout': layout, 'callee': callee, 'steps': steps}
+
+
+def _hist_dir():
+    import tempfile
+    return tempfile.mkdtemp(prefix='verif-c11-hist-', dir='/var/tmp')
+
+
+def hist_play(steps, upto=None):
+    """the real code on the steps in order, right after each other (well inside any time-based validity):
+    the content is written to the file, then a new Script(code, path=file) is asked. -> list of answers"""
+    import os
+    import shutil
+    d = _hist_dir()
+    out = []
+    try:
+        for c in steps[:upto]:
+            path = None
+            if c['file'] is not None:
+                path = os.path.join(d, c['file'])
+                with open(path, 'w', encoding='utf-8') as f:
+                    f.write(c['src'])
+            out.append(real_case(c['src'], c['line'], c['col'], path=path))
+    finally:
+        shutil.rmtree(d, ignore_errors=True)
+    return out
+
+
+def hist_judge(c, real):
+    """the per-request oracle (executed definition, inspect.signature, re-parse of to_string, real calls
+    with a sentinel, position of the parenthesis) on ONE answer -> list of failures"""
+    rec = _Recorder()
+    if 'exc' in real:
+        rec.fail('oracle:raised', 'get_signatures / Signature attribute raised inside a call', None, observed=real)
+    elif real['nsigs'] != 1:
+        rec.fail('oracle:reported', 'no (or more than one) signature reported inside the call parentheses', None,
+                 expected=1, observed={'signatures': real['nsigs']})
+    else:
+        cc = dict(c)
+        cc['real'] = real
+        run_oracle(rec, cc, {})
+    return rec.fails
+
+
+def _hist_public(steps, j):
+    return {'history': [{'file': c['file'], 'source': c['src']} for c in steps[:j + 1]],
+            'line': steps[j]['line'], 'column': steps[j]['col'], 'judged_step': j,
+            'definition': steps[j]['def_src'], 'callee': steps[j]['callee']}
+
+
+def _hist_sig(fails):
+    return sorted(json.dumps([f['stream'], f['expected'], f['observed']], sort_keys=True, default=repr) for f in fails)
+
+
+def stream_history(ctx, objs):
+    """C11 over HISTORIES: every answer of an edit-and-ask-again session on one path is judged on its
+    own against the source that Script was given (exec + inspect.signature + real calls).  A failure
+    that the same source shows without any history (no path) is a per-request matter and goes through
+    the ordinary oracle streams; a failure that only the history produces is reported here with the
+    shortest sub-history that still produces it."""
+    rng = ctx.subrng('history')
+    n = ctx.size(70, 1200)
+    reported = 0
+    for _ in range(n):
+        h = gen_history(rng)
+        steps = h['steps']
+        answers = hist_play(steps)
+        for j, (c, real) in enumerate(zip(steps, answers)):
+            changed = j > 0 and steps[j - 1]['def_src'] != c['def_src']
+            ctx.count('oracle:history', (c['src'], c['col'], j, h['layout']), nontrivial=changed,
+                      bucket='%s/%s/step=%d' % (h['layout'], h['callee'], j),
+                      sample={'layout': h['layout'], 'step': j, 'source': c['src'], 'line': c['line'],
+                              'column': c['col'], 'to_string': real.get('to_string'), 'index': real.get('index')})
+            fails = hist_judge(c, real)
+            if not fails:
+                continue
+            # the same request without history
+            alone = real_case(c['src'], c['line'], c['col'])
+            fails0 = hist_judge(c, alone)
+            if _hist_sig(fails0) == _hist_sig(fails):
+                ctx.count('oracle:history-per-request', None, nontrivial=False, bucket=fails[0]['stream'])
+                cc = dict(c)
+                cc['real'] = alone
+                if 'exc' not in alone and alone['nsigs'] == 1:
+                    run_oracle(ctx, cc, objs)       # judged (known findings included) like any single request
+                continue
+            if reported >= 3:
+                ctx.violations.append(None)
+                continue
+            reported += 1
+            # shortest sub-history ending in step j that still fails although the request alone does not
+            best = list(range(j + 1))
+            for i in range(j - 1, -1, -1):
+                r = hist_play([steps[i], steps[j]])[-1]
+                fr = hist_judge(c, r)
+                if fr and _hist_sig(fr) != _hist_sig(fails0):
+                    best, fails, real = [i, j], fr, r
+                    break
+            sub = [steps[i] for i in best]
+            f0 = fails[0]
+            ctx.fail('oracle:history',
+                     'the answer of get_signatures for the edited file does not mirror the definition in the '
+                     'source it was given (the same request without the earlier Script on that path is answered '
+                     'correctly): ' + f0['what'],
+                     dict(_hist_public(sub, len(sub) - 1), layout=h['layout']),
+                     expected=f0['expected'],
+                     observed={'failed_clause': f0['stream'], 'observed': f0['observed'],
+                               'to_string': real.get('to_string'), 'index': real.get('index'),
+                               'all_failed_clauses': [f['stream'] for f in fails],
+                               'same_request_without_history': {'to_string': alone.get('to_string'),
+                                                                'index': alone.get('index'),
+                                                                'failed_clauses': [f['stream'] for f in fails0]}},
+                     how='for each entry of input.history in order: write source to <tmpdir>/<file>, '
+                         'jedi.Script(source, path=<tmpdir>/<file>).get_signatures(line, column) (no pause in '
+                         'between); the last answer is compared with inspect.signature(callee) / real calls of '
+                         'the executed last source. ./check C11 --replay <this file>')
 
 
 # ------------------------------------------------------------------ stream: kinds (invalid lists)
@@ -1590,6 +1781,7 @@ def run(ctx):
     objs = {}
     for c in cases:
         run_oracle(ctx, c, objs)
+    stream_history(ctx, objs)
     stream_probes(ctx)
     stream_star_args_probe(ctx)
     stream_forward(ctx, reqs, metas)
@@ -1690,6 +1882,29 @@ def run(ctx):
     ]
 
 
+def replay_history(payload):
+    inp = payload['input']
+    j = len(inp['history']) - 1
+    steps = [{'file': e['file'], 'src': e['source'], 'line': inp['line'], 'col': inp['column']} for e in inp['history']]
+    answers = hist_play(steps)
+    for k, (e, r) in enumerate(zip(inp['history'], answers)):
+        print('step %d file=%r first line %r' % (k, e['file'], e['source'].split('\n')[0]))
+        print('   answer: %s' % short({x: r.get(x) for x in ('exc', 'site', 'nsigs', 'to_string', 'index', 'bracket')}, 400))
+    last = answers[-1]
+    obj, _ = exec_def(inp['definition'], inp['callee'])
+    pysig, pyparams = py_params(obj)
+    print('inspect.signature(%s) of the executed last source: %s' % (inp['callee'], pysig))
+    got = [(p['name'], p['kind']) for p in last.get('params', [])] if 'params' in last else None
+    alone = real_case(inp['history'][j]['source'], inp['line'], inp['column'])
+    print('same request without history: to_string=%r index=%r' % (alone.get('to_string'), alone.get('index')))
+    print('expected:', payload.get('expected'))
+    print('observed at record time:', payload.get('observed'))
+    bad = got != pyparams or {x: last.get(x) for x in ('to_string', 'index', 'bracket')} != \
+        {x: alone.get(x) for x in ('to_string', 'index', 'bracket')}
+    print('reproduced' if bad else 'not reproduced: the last answer mirrors the definition now')
+    return 1 if bad else 0
+
+
 def replay(ctx, payload):
     import jedi
     inp = payload['input']
@@ -1705,6 +1920,8 @@ def replay(ctx, payload):
                 print('  FAILS: %s\n    expected %r\n    observed %r' % (what, exp, obs))
         print('reproduced' if bad else 'not reproduced: the property holds on this input now')
         return 1 if bad else 0
+    if 'history' in inp:
+        return replay_history(payload)
     if 'line' in inp:
         for s in jedi.Script(inp['source']).get_signatures(inp['line'], inp['column']):
             print('index=%r bracket_start=%r to_string=%r params=%r' % (
